@@ -251,6 +251,72 @@ func TestCrossProduct(t *testing.T) {
 	evid.Exhaustive("builtin x argument shape x subject situation x value", n)
 }
 
+// TestArgumentTables: the non-subject arguments of replace / trim / strfmt over their own domains (the cross
+// product above holds them at a few representative values): regular expression x replacement template x subject,
+// cut set x subject, format verbs x argument values.
+func TestArgumentTables(t *testing.T) {
+	n := 0
+	run := func(key string, fields map[string]any, prog ...*gen.Node) {
+		prog = append(prog, gen.NCall("probe", str("after"), gen.NCall("get_key", gen.NStr("kx")), id("keep")))
+		c := sem.NewCase(gen.FixAll(prog))
+		c.Fields = fields
+		c.Tags = map[string]string{"keeptag": "kt"}
+		judge(t, "args", c, key, true, "argument-table")
+		n++
+	}
+	pats := []string{"[a-z]+", "e", "the", " ", "USD", "-", "(\\w)(\\w)", "(?P<w>t)h", ".", "\\d+", "^", "$", "a|e", "", "(", "é", "20 ", "t+?", "\\.", "."}
+	reps := []string{"<$0>", "x", "", "$1", "${1}!", "$$", "$w", "$", "[$0]", "$2$1", "\\0", "$10", "${w}-", "é$0"}
+	subjects := []any{"the theme 20 USD a-b.c", "", "été 3.5", int64(20)}
+	for pi, p := range pats {
+		for ri, r := range reps {
+			for si, subj := range subjects {
+				if (pi+ri+si)%evid.NShards() != evid.Shard() {
+					continue
+				}
+				run(fmt.Sprintf("replace/%d/%d/%d", pi, ri, si), map[string]any{"kx": subj, "keep": int64(42)},
+					gen.NCall("replace", id("kx"), str(p), str(r)))
+			}
+		}
+	}
+	cuts := []string{"", " ", "ab", "\t\n ", "é", "ba", "a-c", "]", "abcdefghijklmnopqrstuvwxyz"}
+	tsubj := []any{"  ab hello ba  ", "", "aaa", "\tx\n", "ééxé", "-a-", int64(101), 1.5, true}
+	for ci, cs := range cuts {
+		for si, subj := range tsubj {
+			for side := 0; side < 2; side++ {
+				if (ci+si)%evid.NShards() != evid.Shard() {
+					continue
+				}
+				call := gen.NCall("trim", id("kx"), str(cs))
+				if side == 1 && ci == 0 {
+					call = gen.NCall("trim", id("kx"))
+				} else if side == 1 {
+					continue
+				}
+				run(fmt.Sprintf("trim/%d/%d/%d", ci, si, side), map[string]any{"kx": subj, "keep": int64(42)}, call)
+			}
+		}
+	}
+	verbs := []string{"%v", "%d", "%s", "%5.1f", "%q", "%x", "%t", "%08.3f", "%-6d|", "%+d", "%%", "%5s|", "%T", "%c", "%e"}
+	fargs := []func() *gen.Node{
+		func() *gen.Node { return gen.NInt(42) }, func() *gen.Node { return gen.NFloat(2.25) }, func() *gen.Node { return str("s é") },
+		func() *gen.Node { return gen.NBool(true) }, func() *gen.Node { return gen.NNil() }, func() *gen.Node { return id("keep") },
+		func() *gen.Node { return id("absent") }, func() *gen.Node { return gen.NList(gen.NInt(1), str("a")) },
+	}
+	for vi, vb := range verbs {
+		for ai, a := range fargs {
+			if (vi+ai)%evid.NShards() != evid.Shard() {
+				continue
+			}
+			run(fmt.Sprintf("strfmt/%d/%d", vi, ai), map[string]any{"keep": int64(42)}, gen.NCall("strfmt", id("kx"), str("<"+vb+">"), a()))
+			if vb == "%%" {
+				continue
+			}
+			run(fmt.Sprintf("strfmt2/%d/%d", vi, ai), map[string]any{"keep": int64(42)}, gen.NCall("strfmt", id("kx"), str(vb+" and "+vb), a(), a()))
+		}
+	}
+	evid.Exhaustive("replace: pattern x replacement template x subject; trim: cut set x subject; strfmt: verb x argument", n)
+}
+
 // ------------------------------------------------------------------ random compositions
 
 func TestRandomCompositions(t *testing.T) {
